@@ -13,7 +13,8 @@ VERIF = os.path.dirname(os.path.dirname(os.path.abspath(__file__)))
 REPO = os.environ.get("VERIF_REPO", "/repo")
 SPEC = os.path.join(VERIF, "spec")
 HARNESS = os.path.join(VERIF, "harness")
-EVIDENCE = os.path.join(VERIF, "evidence")
+# VERIF_EVIDENCE: runs against a seeded checkout (VERIF_REPO) write their evidence elsewhere, never into /verif/evidence
+EVIDENCE = os.environ.get("VERIF_EVIDENCE") or os.path.join(VERIF, "evidence")
 REPLAY = os.path.join(EVIDENCE, "replay")
 KNOWN = os.path.join(VERIF, "known_findings.txt")
 
@@ -59,15 +60,19 @@ def spec_dir(scratch, name="spec"):
     return d
 
 
-_tlc_counter = [0]
+import itertools
+import threading
+_tlc_counter = itertools.count(1)     # TLC runs are started from several threads: the counter must not hand out a number twice
+_tlc_lock = threading.Lock()
 
 
 def tlc(specdir, module, cfg=None, workers="auto", timeout=900, simulate=None, depth=None, tlc_seed=None,
         deque=False, extra=(), out_file=None):
     """Runs TLC; returns dict(out, states, distinct, error, violated, seconds). Output goes to a file
     (out_file or a temporary one in specdir) because emission configs print a lot."""
-    _tlc_counter[0] += 1
-    meta = os.path.join(specdir, "meta-%d-%d" % (os.getpid(), _tlc_counter[0]))
+    with _tlc_lock:
+        run_no = next(_tlc_counter)
+    meta = os.path.join(specdir, "meta-%d-%d" % (os.getpid(), run_no))
     cmd = ["timeout", str(timeout), "tlc", "-noGenerateSpecTE", "-metadir", meta, "-workers", str(workers)]
     if simulate is not None:
         cmd += ["-simulate", simulate]
@@ -80,7 +85,7 @@ def tlc(specdir, module, cfg=None, workers="auto", timeout=900, simulate=None, d
     env = dict(os.environ)
     if deque:
         env["JAVA_TOOL_OPTIONS"] = (env.get("JAVA_TOOL_OPTIONS", "") + " " + STATE_DEQUE).strip()
-    out_path = out_file or os.path.join(specdir, "tlc-%d-%d.out" % (os.getpid(), _tlc_counter[0]))
+    out_path = out_file or os.path.join(specdir, "tlc-%d-%d.out" % (os.getpid(), run_no))
     t0 = time.time()
     with open(out_path, "w") as f:
         p = subprocess.run(cmd, cwd=specdir, stdout=f, stderr=subprocess.STDOUT, env=env)
